@@ -26,6 +26,10 @@ def run_one(name, extra):
         rb = os.path.join(d, "patch.rebased-on-fixes.diff")
         if os.path.exists(rb):
             patch, used = rb, "patch.rebased-on-fixes.diff"
+        else:
+            # a later repair rewrote the code the seed changed and no equivalent regression exists on
+            # the repaired code: the verdict recorded when it still applied is kept
+            return name, {}
     r = subprocess.run([sys.executable, "-m", "tools.mutant", patch] + ids, cwd=V,
                        stdout=subprocess.PIPE, stderr=subprocess.STDOUT, text=True)
     out = r.stdout
@@ -75,6 +79,11 @@ def main():
     results = json.load(open(path)) if os.path.exists(path) else {}
     with ThreadPoolExecutor(jobs) as ex:
         for name, res in ex.map(lambda n: run_one(n, extra), names):
+            if not res:
+                for v in results.get(name, {}).values():
+                    v["superseded"] = "patch no longer applies to /repo HEAD (the changed code was rewritten by a fix: commit); verdict from the run on the tree where it applied"
+                print(name, "superseded", flush=True)
+                continue
             results.setdefault(name, {}).update(res)
             print(name, {k: v["verdict"] for k, v in res.items()}, flush=True)
     with open(path, "w") as f:
@@ -90,7 +99,7 @@ def main():
         if os.path.exists(mp):
             meta = json.load(open(mp))
         need = str(meta.get("needs_to_manifest") or meta.get("what_it_needs_to_manifest") or "")[:160].replace("|", "/").replace("\n", " ")
-        verd = ", ".join("%s: %s%s" % (k, v.get("verdict"), " (rebased patch)" if v.get("patch_used", "patch.diff") != "patch.diff" else "")
+        verd = ", ".join("%s: %s%s" % (k, v.get("verdict"), (" (rebased patch)" if v.get("patch_used", "patch.diff") != "patch.diff" else "") + (" [superseded by a later fix; verdict from the tree where it applied]" if v.get("superseded") else ""))
                          for k, v in sorted(results[name].items()))
         lines.append("| %s | %s | %s | %s |" % (name, meta.get("breaks_property", name.split("-")[0]), need, verd))
     with open(os.path.join(S, "RESULTS.md"), "w") as f:
